@@ -86,7 +86,7 @@ def run_mc(ctx, tag, mode, theme, maxops, maxnodes, ns_on, defects, thms):
                               % (kind, "EtreeStore" if kind == "etree" else "DomStore", diff["field"], tag),
                               {"kind": "replay", "mode": rec["mode"], "nsOn": rec["nsOn"], "hist": rec["hist"], "builder": kind,
                                "field": diff["field"], "expected": diff["expected"], "got": diff["got"],
-                               "e": rec["e"], "d": rec["d"], "samelog": False})
+                               "e": rec["e"], "d": rec["d"], "samelog": rec["samelog"]})
         if batch and not ctx.samples:
             m = batch[len(batch) // 2]
             ctx.sample({"spec_to_code": [h["t"] if "t" in h else h["op"] for h in m["hist"]], "expected_rows(etree)": m["e"]["rows"]})
@@ -365,7 +365,7 @@ def _spec_tree_row(job):
 def run(ctx):
     listed = [x for x in DEFECTS if x in ctx.open_keys]
     q = ctx.quick
-    P = {"parser/structure": (5, 8) if q else (6, 8), "parser/attrs": (4, 7) if q else (5, 8), "free": (4, 5) if q else (5, 5)}
+    P = {"parser/structure": (5, 8) if q else (6, 8), "parser/attrs": (4, 7) if q else (5, 7), "free": (4, 5) if q else (5, 4)}
     ctx.constants = {"MC_TreeStore (MaxOps, MaxNodes)": P,
                      "parser-mode alphabet": "elements b/div/table (+svg and attribute sets in theme attrs), text 'x', comments in current node / "
                                              "document, pop, body removal, adoption agency steps 9-15 with every AFE mask, reconstruction, "
@@ -441,7 +441,7 @@ def replay(case):
     c = case["case"]
     kind = c.get("kind")
     if kind == "replay":
-        rec = {"mode": c["mode"], "nsOn": c["nsOn"], "hist": c["hist"], "e": c["e"], "d": c["d"], "samelog": False}
+        rec = _unpack({"mode": c["mode"], "nsOn": c["nsOn"], "hist": c["hist"], "e": c["e"], "d": c["d"], "samelog": c["samelog"]})
         diff = treestore.replay_behaviour(rec, c["builder"])
         print("history:", json.dumps(c["hist"])[:2000])
         print("difference:", json.dumps(diff)[:3000] if diff else None)
